@@ -210,7 +210,7 @@ impl Property for C10 {
 
     fn cases(&self, tier: Tier) -> u64 {
         match tier {
-            Tier::Quick => 60_000,
+            Tier::Quick => 180_000,
             Tier::Thorough => 1_500_000,
         }
     }
